@@ -87,6 +87,10 @@ def history(r, M, thorough):
     for _ in range(2):
         i, j = r.below(M), r.below(M)
         close.append(r.choice([[i, j, j, i], [i, j, i, j], list(r.choice(pool))]))
+    if r.chance(1, 2):
+        # the same set was computed before with a frequency table and DISCARDED terms: the second bulk request must rebuild
+        ops.append("tpc prepareall %d %s" % (len(close), " ".join("%d %d %d %d" % tuple(q) for q in close)))
+        ops.append("tpc computeall %d purge" % r.below(2))
     ops.append("tpc prepareall %d %s" % (len(close), " ".join("%d %d %d %d" % tuple(q) for q in close)))
     if r.chance(1, 2):      # the same bulk request again (must be harmless), sometimes reordered / with an alias of an element
         again = list(reversed(close)) if r.chance(1, 2) else [close[0], [close[1][1], close[1][0], close[1][2], close[1][3]]]
